@@ -177,7 +177,7 @@ pub fn run(run: &mut Run) {
         around frame boundaries, fixed chunks incl. 6120/6121), with transient errors (WouldBlock / Interrupted / TimedOut), Pending \
         polls and 90 s stalls injected, optionally ending mid-frame. The same script drives a blocking and a tokio connection over a \
         scripted transport (paused clock); both result lists must equal the reference model (one result per complete frame, each fault \
-        exactly once at its position, then Disconnected). Short streams: all 2^(n-1) partitions (complete). Half of the generated sessions run with the version gate on (what the gate does to one packet must not disturb the next). Streams of N four-byte frames for N around 1530, 2670 and 3060 (the receive buffer's capacity and its multiples) in pieces of 1, 2, 3, 5 bytes, ending right after the last frame. Non-trivial = a frame is \
+        exactly once at its position, then Disconnected). Short streams: all 2^(n-1) partitions (complete). Runs of 1..256 undecodable frames in a row followed by decodable ones, cut every way. Half of the generated sessions run with the version gate on (what the gate does to one packet must not disturb the next). Streams of N four-byte frames for N around 1530, 2670 and 3060 (the receive buffer's capacity and its multiples) in pieces of 1, 2, 3, 5 bytes, ending right after the last frame. Non-trivial = a frame is \
         split across reads, several frames share a read, or the traffic exceeds the 6120-byte buffer."
         .into();
     run.assumptions = vec![
@@ -249,6 +249,34 @@ pub fn run(run: &mut Run) {
             cases.push(SessionCase { compressed, verify: false, steps, writes: vec![], label: "real quiet periods".into() });
         }
         run.list(&Sessions, "generated-sessions", cases);
+    }
+    // runs of undecodable frames (unknown types, bad enumeration values): 1..256 of them in a row, then decodable ones - cut every
+    // way, several frames per read among them: each must give its own error and none may disturb what follows
+    {
+        use proptest::prelude::*;
+        let strat = (
+            any::<bool>(),
+            prop_oneof![3 => 1usize..40, 1 => Just(31usize), 1 => Just(32), 1 => Just(33), 2 => 40usize..140, 1 => Just(255usize), 1 => Just(256)],
+            proptest::collection::vec(frame_strategy(1, 1), 1..6),
+            cutting_strategy(),
+            any::<bool>(),
+            any::<bool>(),
+        )
+            .prop_map(|(compressed, n, tail, cutting, verify, small)| {
+                let mode = if compressed { Mode::Compressed } else { Mode::Uncompressed };
+                let mut stream = vec![];
+                for i in 0..n {
+                    let f = if i % 3 == 2 { FrameSpec::BadEnum(i as u8) } else { FrameSpec::UnknownType(i as u8, if small { 0 } else { (i * 7) as u8 }) };
+                    stream.extend_from_slice(&frame_bytes(&f, &mode));
+                }
+                for f in &tail {
+                    stream.extend_from_slice(&frame_bytes(f, &mode));
+                }
+                let steps = build_steps(cut_stream(&stream, &mode, &cutting), &[]);
+                SessionCase { compressed, verify, steps, writes: vec![], label: format!("{n} undecodable frames in a row ({cutting:?})").chars().take(80).collect() }
+            });
+        let n = run.budget(4_000, 200_000);
+        run.prop(&Sessions, strat, n);
     }
     // long sessions: tens of KB, many reclaim cycles of the receive buffer
     let n = run.budget(1_500, 100_000);
